@@ -169,6 +169,14 @@ def shallow_reduce(a, trail=None):
     return a
 
 
+def mentions_alias_type(h, depth: int = 0) -> bool:
+    if isinstance(h, T.TypeAliasType):
+        return True
+    if depth > 10:
+        return False
+    return any(mentions_alias_type(a, depth + 1) for a in T.get_args(h) if not isinstance(a, (str, int, bytes, bool, type(None))))
+
+
 def union_members(h, trail=()) -> list:
     """Members of a union as the union factory sees them: each member reduced at its own
     node only, nested unions flattened, duplicates (equal reduced hints) dropped. Each member comes with the
@@ -178,7 +186,9 @@ def union_members(h, trail=()) -> list:
         t = list(trail)
         a = shallow_reduce(a, t)
         for b, tb in (union_members(a, tuple(t)) if is_union(a) else [(a, tuple(t))]):
-            if not any(b is c or (type(b) is type(c) and b == c) for c, _ in out):
+            # equal members are one member only when they are plain classes (merged into one isinstance tuple) or were
+            # reached through the same aliases (the sanified metadata of a member records the aliases expanded on the way)
+            if not any((b is c or (type(b) is type(c) and b == c)) and (tc == tb or isinstance(b, type)) for c, tc in out):
                 out.append((b, tb))
     return out
 
